@@ -140,6 +140,12 @@ def gen(rng, tier, quarantine=()):
             n += 1
             recs.append({"op": "mk", "id": f"q{n}", "kind": "probe", "nojudge": True,
                          "sels": [one_sel(fn, v)]})
+    elif rng.random() < 0.4:
+        # a generic capture restricted to a tag: only the variables annotated with it are
+        # instrumented; everything else of the function is left as it is (globals included)
+        sel = one_sel(fn, "$v")
+        sel["focus"]["tag"] = rng.choice(["@A", "@A", "@B"])  # (refused if no variable carries it)
+        recs.append({"op": "mk", "id": f"q{n}", "kind": "probe", "nojudge": True, "sels": [sel], "may_refuse": True})
     else:
         recs.append({"op": "mk", "id": f"q{n}", "kind": "probe", "nojudge": True,
                      "sels": [one_sel(fn, "#enter")]})
